@@ -1,6 +1,7 @@
 """Contract objects (DESIGN 2.1 step 2, 2.4): one definition yields both the obligations of the function under
 contract and the summary its callers are checked against."""
 import ast
+import os
 import time
 import traceback
 import z3
@@ -98,6 +99,16 @@ class Contract:
         return A, st2
 
     def summary(self, en, st, a, kw):
+        """callee summary; a call whose arguments are not values of the universe (possible only on paths the quick pruner left in although they are
+        infeasible, e.g. the result of an unmodelled attribute) is a havoc on a tainted path instead of a crash of the contract's formulas"""
+        n0 = len(en.obligations)
+        try:
+            return self._summary(en, st, a, kw)
+        except (z3.Z3Exception, TypeError, AttributeError) as e:
+            del en.obligations[n0:]
+            return en.havoc_call(f"{self.key} (argument outside the value universe: {str(e)[:60]})", st)
+
+    def _summary(self, en, st, a, kw):
         if not hasattr(self, 'A') and type(self).args is not Contract.args:
             # auxiliary symbols of the contract (created in args()) are needed by pre/post even when only the summary is used
             self.args(en, self.param_names(en))
@@ -196,6 +207,19 @@ class Lemma:
 
 # --------------------------------------------------------------------------- verification of one function
 def verify(contract, registry, tier='quick', mutate=None):
+    """-> report dict.  A function that ends `out_of_subset` or crashes is tried again with a larger budget for the feasibility pruner: such verdicts
+    on the unchanged tree come from paths the quick pruner could not refute in time (machine load), which then run into constructs outside the subset"""
+    rep = None
+    for scale in (1, 8, 40):
+        rep = _verify_once(contract, registry, tier, mutate, scale)
+        if rep.get('status') not in ('out_of_subset', 'crash'):
+            break
+    if rep is not None and scale > 1:
+        rep.setdefault('notes', []).append(f"pruner budget x{scale}")
+    return rep
+
+
+def _verify_once(contract, registry, tier='quick', mutate=None, prune_scale=1):
     """-> report dict (JSON-able except '_models')"""
     T = table()
     rep = dict(id=contract.key, obligations=[], paths=0, status='ok', notes=[])
@@ -219,7 +243,8 @@ def verify(contract, registry, tier='quick', mutate=None):
         return rep
     SX.number_loops(node)
     reg = {k: c for k, c in registry.items() if k != contract.key or getattr(contract, 'recursive', False)}
-    en = Engine(contract.key.split('::')[0], contract=contract, registry=reg, timeout=getattr(contract, 'prune_ms', 250))
+    en = Engine(contract.key.split('::')[0], contract=contract, registry=reg, timeout=int(os.environ.get('PYVC_PRUNE_MS', getattr(contract, 'prune_ms', 250))) * prune_scale)
+    en.prune2_ms = 60 * prune_scale
     qual = contract.key.split('::')[1]
     if '.' in qual and qual.split('.')[-2] in T.classes:
         en.current_class = qual.split('.')[-2]
